@@ -26,23 +26,23 @@ CHECKS = {
             "Trusts tmpfs POSIX semantics, the stepwise copyfile re-implementation, SimRemoteFS atomic puts; faults are injected at copy-create / mid-copy / rename / remote put / remote ack.",
             "deterministic simulation: seeded scenarios + per-scenario upload-fault subset enumeration with inline closure monitor", "DESIGN.md §5 C04"),
     "C11": ("fault_enumeration",
-            "Open-world transfer scenarios (shallow or expanded requests, arbitrary source/destination contents, ids missing on both sides, corrupt sources under verify) with the per-scenario upload-failure subsets enumerated as for C04; after each run the TransferResult is compared with before/after listings of both stores taken straight from the kernel / the simulated remote: partition, transferred => present with right bytes, absent => failed or missing on both sides, present-before => neither re-sent (seam log) nor reported, source bytes unchanged. Also: destinations with a hash-state database, a pre-populated remote index whose directories vanished, a non-atomic remote on which a failed put leaves a truncated object under the final name, empty directory objects.",
+            "Open-world transfer scenarios (shallow or expanded requests, arbitrary source/destination contents, ids missing on both sides, corrupt sources under verify) with the per-scenario upload-failure subsets enumerated as for C04; after each run the TransferResult is compared with before/after listings of both stores taken straight from the kernel / the simulated remote: partition, transferred => present with right bytes, absent => failed or missing on both sides, present-before => neither re-sent (seam log) nor reported, source bytes unchanged. Also: destinations with a hash-state database, a pre-populated remote index whose directories vanished, a non-atomic remote on which a failed put leaves a truncated object under the final name, empty directory objects. Also: a second round through the same store handles after another client delivered part of the missing objects (files first, directories only when complete).",
             "With a remote index the destination is generated closed (the index's 'directory exists => contents exist' shortcut is by design and C12's subject). Corrupt dir objects in the source are not generated (transfer asserts on them).",
             "deterministic simulation: seeded scenarios + upload-fault subset enumeration, result vs store-listing oracle", "DESIGN.md §5 C11"),
     "C12": ("exploration",
-            "Seeded histories over a source, a destination (each store class, SimRemoteFS) and one shared ObjectDBIndex: clean and faulty closed transfers, external deletions by 'another client', status and compare_status; without index every answer must equal the actual listing (both lookup strategies of the generic class are reached by randomising LIST_OBJECT_PAGE_SIZE / TRAVERSE_PREFIX_LEN and adding 00-prefixed fillers); with index every directory reported existing must be in the store at that instant and every id the index holds must have been delivered earlier (tracked from seam events) or be listed by a directory present now.",
+            "Seeded histories over a source, a destination (each store class, SimRemoteFS) and one shared ObjectDBIndex: clean and faulty closed transfers, external deletions by 'another client', status and compare_status; without index every answer must equal the actual listing (both lookup strategies of the generic class are reached by randomising LIST_OBJECT_PAGE_SIZE / TRAVERSE_PREFIX_LEN and adding 00-prefixed fillers); with index every directory reported existing must be in the store at that instant and every id the index holds must have been delivered earlier (tracked from seam events) or be listed by a directory present now. Also: read errors while unprotected objects are re-hashed during index-free queries, and a failing index clear (SQLite 'database or disk is full') during indexed queries: the query may refuse, a returned answer is held to the same oracle.",
             "Index-free exactness for LocalHashFileDB uses intact objects only (its existence query is an integrity check, C07).",
             "deterministic simulation: seeded operation/fault histories checked against a reference model after every step", "DESIGN.md §5 C12"),
     "C15": ("fault_enumeration",
-            "For each seeded scenario (operation family x reflink variant x tree x pre-populated destination) a golden run counts every seam point of the operation - filesystem mutations including mid-copy, state-database calls, remote puts - and then for EVERY k the operation is re-run from scratch in a forked process that dies with os._exit at point k (no finally/except clean-up runs, staged in-memory objects vanish); a second fresh process audits the durable state (no write-protected object mismatches its name; no hash-state row whose token matches the file vouches for a wrong hash; every valid directory object has its files), re-runs the operation and audits again (all objects valid and protected, object set equals the golden run's). Complete over crash points per scenario, sampled over scenarios. Families since added: closed two-directory push with shared files and a remote index (transfer with cache_odb = destination, with the default cache_odb, and through index collect()+push()), two-cache index save.",
+            "For each seeded scenario (operation family x reflink variant x tree x pre-populated destination) a golden run counts every seam point of the operation - filesystem mutations including mid-copy, state-database calls, remote puts - and then for EVERY k the operation is re-run from scratch in a forked process that dies with os._exit at point k (no finally/except clean-up runs, staged in-memory objects vanish); a second fresh process audits the durable state (no write-protected object mismatches its name; no hash-state row whose token matches the file vouches for a wrong hash; every valid directory object has its files), re-runs the operation and audits again (all objects valid and protected, object set equals the golden run's). Complete over crash points per scenario, sampled over scenarios. Families since added: closed two-directory push with shared files and a remote index (transfer with cache_odb = destination, with the default cache_odb, and through index collect()+push()), two-cache index save. In 30% of the crash points the recovery run is itself killed at one of its first four seam points and a third process recovers.",
             "Crash = process death; no power-loss model. SQLite statements are atomic (crash points fall between statements). A working reflink is modelled as create-empty + atomic clone. The generic store class over a POSIX directory is not a target (healing belongs to LocalHashFileDB); it is covered over SimRemoteFS with atomic puts.",
             "deterministic simulation: process-death enumeration at every seam point + restart in a fresh process + audits", "DESIGN.md §5 C15"),
     "C16": ("exploration",
-            "2-4 writers with heavily overlapping trees run build()+transfer() into one LocalHashFileDB with one shared hash-state database, as real threads (one State object) or as forked processes (optionally after setuid to an unprivileged uid, so the kernel - not a model - decides permission outcomes). A seeded controller holds a single baton: a writer runs only between two seam points (every filesystem mutation, stat/open/scandir read, state-database call, and every SQL statement issued outside a transaction) and the controller picks who proceeds next under a uniform / sticky / priority-with-change-points policy, so one seed is one exactly repeatable interleaving. Oracle: no writer raised, no TransferResult.failed, final store == union of the writers' independently computed object sets byte for byte, each writer's directory id is its model's, no hash-state row vouches for wrong content. One genuine defect (F15, reflink create/clone vs healing race) is recorded in known_findings.json and printed as KNOWN-FINDING; every failed upload's exception type and innermost library frame are part of the signature so that any other failure still alarms.",
+            "2-4 writers with heavily overlapping trees run build()+transfer() into one LocalHashFileDB with one shared hash-state database, as real threads (one State object) or as forked processes (optionally after setuid to an unprivileged uid, so the kernel - not a model - decides permission outcomes). A seeded controller holds a single baton: a writer runs only between two seam points (every filesystem mutation, stat/open/scandir read, state-database call, and every SQL statement issued outside a transaction) and the controller picks who proceeds next under a uniform / sticky / priority-with-change-points policy, so one seed is one exactly repeatable interleaving. Oracle: no writer raised, no TransferResult.failed, final store == union of the writers' independently computed object sets byte for byte, each writer's directory id is its model's, no hash-state row vouches for wrong content. One genuine defect (F15, reflink create/clone vs healing race) is recorded in known_findings.json and printed as KNOWN-FINDING; every failed upload's exception type and innermost library frame are part of the signature so that any other failure still alarms. In 60% of the scenarios chunk reads are pre-emption points too (before and after each read).",
             "Pre-emption only at seam points, not arbitrary bytecodes; pool tasks inside one writer are reordered, not interleaved. Runs as root except in the uid variant.",
             "deterministic simulation: seeded baton scheduler over real threads / forked processes at seam points", "DESIGN.md §5 C16"),
     "C01": ("exploration",
-            "Seeded histories of 3-12 real operations (stage directory/file, upload-stage, store-to-store transfer closed/expanded/hardlink/verify, index save of nested directories, migrate of a legacy md5-dos2unix store, gc, user edits) over four stores of both classes plus a simulated remote, with listing order, pool completion order, set order (PYTHONHASHSEED), reflink variant and the parallel-hashing threshold seeded, 60% of histories with injected upload faults (create / mid-copy / rename / lost put / lost ack). After EVERY operation every store is audited from raw kernel listings: each object's name equals the digest of its bytes under that store's algorithm (directory objects: canonical listing + .dir) and local-class objects added by a successful operation are mode 0444.",
+            "Seeded histories of 3-12 real operations (stage directory/file, upload-stage, store-to-store transfer closed/expanded/hardlink/verify, index save of nested directories, migrate of a legacy md5-dos2unix store, gc, user edits) over four stores of both classes plus a simulated remote, with listing order, pool completion order, set order (PYTHONHASHSEED), reflink variant and the parallel-hashing threshold seeded, 60% of histories with injected upload faults (create / mid-copy / rename / lost put / lost ack). After EVERY operation every store is audited from raw kernel listings: each object's name equals the digest of its bytes under that store's algorithm (directory objects: canonical listing + .dir) and local-class objects added by a successful operation are mode 0444. Since round 4: chmod failures while protecting placed objects (tolerated by the library) followed by a fault-free repetition of the same operation, after which everything the pair added must be read-only; a concurrent editor replacing a workspace file between two reads of an upload staging.",
             "Under an injected fault in the same operation an empty unprotected file at a final name (reflink window) is tolerated, nothing else. Hard-linked migration changing the source object's mode is not asserted on.",
             "deterministic simulation: seeded operation/fault histories with store audit against a reference model after every step", "DESIGN.md §5 C01"),
     "C02": ("exploration",
@@ -50,31 +50,31 @@ CHECKS = {
             "Refinement against a reference model inside the simulated environment (listing order, simulated mtimes feeding the state cache, pool order); no fault dimension.",
             "deterministic simulation: seeded histories, round-trip vs reference model", "DESIGN.md §5 C02"),
     "C06": ("exploration",
-            "gc is called on store states produced by real seeded histories (files, directory objects, shared files, leftovers of failed adds, evicted objects) with used sets drawn from ids in the store, absent ids, ids carrying another algorithm's name, directory ids; shallow and expanding (optionally through a separate cache_odb), dry and real, read-only stores. Oracle: returned count == |S - U|, store afterwards lists exactly S & U (S when dry), read-only store refused and untouched, with S from the store's own listing before the call and U computed independently from the model.",
+            "gc is called on store states produced by real seeded histories (files, directory objects, shared files, leftovers of failed adds, evicted objects) with used sets drawn from ids in the store, absent ids, ids carrying another algorithm's name, directory ids; shallow and expanding (optionally through a separate cache_odb), dry and real, read-only stores. Oracle: returned count == |S - U|, store afterwards lists exactly S & U (S when dry), read-only store refused and untouched, with S from the store's own listing before the call and U computed independently from the model. Also: the n-th removal fails (EACCES/EIO): gc may raise (then no used object may be gone), but a gc that returns is held to the exact result.",
             "No schedule or fault dimension exists in gc itself; the simulation contributes history-produced store states and the model comparison.",
             "deterministic simulation: seeded histories producing store states, gc vs set-difference model", "DESIGN.md §5 C06"),
     "C09": ("exploration",
-            "Seeded (prior workspace, target index) pairs over one small name pool so that file<->directory replacements occur at every depth; target as explicit entries (with the explicit parent-directory entries DVC always adds) and/or an unloaded directory object under a prefix, exec bits, link type, delete on/off, evicted file objects or evicted directory object; old side built as DVC does (build + md5). After compare+apply on the real tmpfs workspace: workspace files == target files byte for byte, target directories exist, explicit exec entries executable, a second compare has nothing to create or delete, with delete off every prior path outside the target survives, every unavailable target path is reported through apply's onerror (for itself or its directory).",
+            "Seeded (prior workspace, target index) pairs over one small name pool so that file<->directory replacements occur at every depth; target as explicit entries (with the explicit parent-directory entries DVC always adds) and/or an unloaded directory object under a prefix, exec bits, link type, delete on/off, evicted file objects or evicted directory object; old side built as DVC does (build + md5). After compare+apply on the real tmpfs workspace: workspace files == target files byte for byte, target directories exist, explicit exec entries executable, a second compare has nothing to create or delete, with delete off every prior path outside the target survives, every unavailable target path is reported through apply's onerror (for itself or its directory). Also: prior workspaces holding symbolic links into the cache or dangling ones (then indexed the way DVC's build_data_index does, build_entries(compute_hash=True)); exec bits judged through symlinks.",
             "Indexes without explicit parent-directory entries are outside the property's well-formed targets (DVC always adds them). With delete off, convergence is only required when no path changes kind.",
             "deterministic simulation: seeded workspace-state x target pairs, apply vs reference model with second-compare fixpoint check", "DESIGN.md §5 C09"),
     "C05": ("exploration",
-            "Two seeded history kinds on a real tmpfs workspace under the simulated clock. (1) user operations (write / atomic replace / delete / file<->dir swap with cached or uncached bytes, eviction of cache objects) interleaved with UNFORCED checkouts (prompt absent or declining, relink on/off, every link type, both store classes, with/without state): before each checkout the set U of files whose bytes the cache does not hold intact is computed from raw listings; afterwards - whether the call returned or raised - every file of U is byte-identical, and if a member of U stood in the way of the target the call must not have returned normally. (2) link records: save_link and checkout-recorded links, user modify in place / replace / remove / re-create at later simulated times, get_unused_links(used)+remove_links: every path that disappears must be a recorded link, not listed as used, unmodified since it was recorded.",
+            "Two seeded history kinds on a real tmpfs workspace under the simulated clock. (1) user operations (write / atomic replace / delete / file<->dir swap with cached or uncached bytes, eviction of cache objects) interleaved with UNFORCED checkouts (prompt absent or declining, relink on/off, every link type, both store classes, with/without state): before each checkout the set U of files whose bytes the cache does not hold intact is computed from raw listings; afterwards - whether the call returned or raised - every file of U is byte-identical, and if a member of U stood in the way of the target the call must not have returned normally. (2) link records: save_link and checkout-recorded links, user modify in place / replace / remove / re-create at later simulated times, get_unused_links(used)+remove_links: every path that disappears must be a recorded link, not listed as used, unmodified since it was recorded. Also: in-place edits that leave an OLDER mtime than the recorded one, and a truncated unprotected leftover sitting in the cache under the id of the user's unsaved bytes.",
             "A modification happens at a strictly later simulated time than the record it invalidates (the link token is (inode, mtime)). Any exception counts as a refusal; the safety oracle is byte preservation.",
             "deterministic simulation: seeded user/checkout histories under a simulated clock vs byte-accounting oracle", "DESIGN.md §5 C05"),
     "C10": ("exploration",
-            "Seeded (prior, target, L0, L1) scenarios: the prior tree is materialised by a real checkout with link type L0, the user adds / removes / atomically replaces nested files, then a forced checkout of the target with configured link type L1, the same call again, then relink=True; both store classes, with/without state, duplicate contents and empty files, single-file targets. Oracle: workspace == target bytes; the second call returns None and the seam records no workspace mutation; after relink every file is of type L1 judged by lstat/readlink/inode against the cache object; the cache's {oid: bytes} is identical before and after; the saved link record equals (inode, mtime token) recomputed independently from the workspace.",
+            "Seeded (prior, target, L0, L1) scenarios: the prior tree is materialised by a real checkout with link type L0, the user adds / removes / atomically replaces nested files, then a forced checkout of the target with configured link type L1, the same call again, then relink=True; both store classes, with/without state, duplicate contents and empty files, single-file targets. Oracle: workspace == target bytes; the second call returns None and the seam records no workspace mutation; after relink every file is of type L1 judged by lstat/readlink/inode against the cache object; the cache's {oid: bytes} is identical before and after; the saved link record equals (inode, mtime token) recomputed independently from the workspace. Also: prior files that are symlinks into another copy of the cache; a checkout that changed the workspace must save a link record.",
             "User edits of link-type files are atomic replacements. Zero-length files are exempt from the hardlink-inode test (LocalFileSystem.link deliberately creates a fresh empty file).",
             "deterministic simulation: seeded workspace histories x link-type matrix vs reference model, seam log as mutation witness", "DESIGN.md §5 C10"),
     "C07": ("exploration",
-            "Seeded histories under the simulated clock: objects (files and a directory object) enter a LocalHashFileDB or generic store raw (hash-state cold) or through the real add() (state warm), are tampered at a later simulated time (truncate, append, same-length rewrite, rewrite, replace-by-rename optionally with the old mtime restored) always leaving a mode other than exactly 0444, intact objects get chmod-ed away from 0444, the clock advances, and check / hashfile.check(tree) / oids_exist / exists / checkout of a referencing tree / add(verify=True) from a corrupt source are issued in random order and repetition. A byte-level model decides per query: tampered => rejected and removed, never reported existing, never materialised by checkout, never retained by a verifying add; intact => never rejected, deleted or changed, protected after a successful check on the local class.",
+            "Seeded histories under the simulated clock: objects (files and a directory object) enter a LocalHashFileDB or generic store raw (hash-state cold) or through the real add() (state warm), are tampered at a later simulated time (truncate, append, same-length rewrite, rewrite, replace-by-rename optionally with the old mtime restored) always leaving a mode other than exactly 0444, intact objects get chmod-ed away from 0444, the clock advances, and check / hashfile.check(tree) / oids_exist / exists / checkout of a referencing tree / add(verify=True) from a corrupt source are issued in random order and repetition. A byte-level model decides per query: tampered => rejected and removed, never reported existing, never materialised by checkout, never retained by a verifying add; intact => never rejected, deleted or changed, protected after a successful check on the local class. Also: every removal of a rejected object fails for the duration of a checkout (refusing is fine, materialising wrong bytes is not); add(verify=True, hardlink=True).",
             "Tampering that is invisible to (inode, mtime, size) - an in-place same-length rewrite at an unchanged mtime - is not generated (C13 counts and excludes it).",
             "deterministic simulation: seeded tamper/query histories under a simulated clock vs byte-level model", "DESIGN.md §5 C07"),
     "C13": ("exploration",
-            "Seeded histories over <=12 files (2% of runs 1000-2100 files, for the SQL parameter-batch boundary) under a simulated clock that advances by 0 .. 1 day, steps backwards and ticks coarsely (1us/1ms/1s/2s): write, in-place overwrite with the same or another length, append, atomic replace (new inode, optionally same length), touch, delete, re-create; interleaved queries state.get, get_many (batch knob 2/3/7/999, stat info supplied or not), hash_file(state), build(dry_run), build_entries(compute_hash), index md5 and update(new, old); injected rows of another algorithm, of the legacy algorithm name and of a newer format version; lookups/saves through a non-local filesystem. Every returned hash is compared with the reference digest of the file's current bytes at that instant; batch and single answers must agree; a mutation that leaves (inode, mtime, size) all identical is detected from the recorded real stat triples, counted and excluded rather than generated away. Also: a file rewritten WHILE its directory is being hashed (read hook between two reads of the walk), an old (inode, mtime, size) triple recurring with new bytes, empty files, legacy-algorithm queries, a previous index written to disk and re-opened before update().",
+            "Seeded histories over <=12 files (2% of runs 1000-2100 files, for the SQL parameter-batch boundary) under a simulated clock that advances by 0 .. 1 day, steps backwards and ticks coarsely (1us/1ms/1s/2s): write, in-place overwrite with the same or another length, append, atomic replace (new inode, optionally same length), touch, delete, re-create; interleaved queries state.get, get_many (batch knob 2/3/7/999, stat info supplied or not), hash_file(state), build(dry_run), build_entries(compute_hash), index md5 and update(new, old); injected rows of another algorithm, of the legacy algorithm name and of a newer format version; lookups/saves through a non-local filesystem. Every returned hash is compared with the reference digest of the file's current bytes at that instant; batch and single answers must agree; a mutation that leaves (inode, mtime, size) all identical is detected from the recorded real stat triples, counted and excluded rather than generated away. Also: a file rewritten WHILE its directory is being hashed (read hook between two reads of the walk), an old (inode, mtime, size) triple recurring with new bytes, empty files, legacy-algorithm queries, a previous index written to disk and re-opened before update(). Also: atomic replacement by same-size bytes carrying the same mtime; workspace entries that are symlinks to files edited elsewhere; an exact row model for legacy-algorithm rows.",
             "mtimes are kept >= 1us apart (the token is built from the float st_mtime). Caller-supplied stat info is always fresh.",
             "deterministic simulation: seeded mutation/query histories under a simulated clock (advance, step back, coarse ticks) vs reference digests", "DESIGN.md §5 C13"),
     "C17": ("exploration",
-            "A logical index (explicit files with explicit parents plus 1-3 directory objects at depth 0-2 that contain sub-directories) is realised lazily (one unloaded entry per directory object + ObjectStorage on a real cache) and explicitly, in memory or SQLite-backed via DataIndex.open(); a seeded ORDER of 4-20 accesses - lookup, membership, iteritems(prefix, shallow), ls, info, diff(L, E, hash_only), DataFileSystem ls/info/find/open, view(filter).iteritems over prefix-closed filters (first and second iteration), load() twice - decides at which moment each directory gets loaded. Every answer of the lazy index must equal the explicit index's and the model's; the explicit index is checked against the model too, so a wrong model is a harness error, not an alarm. Also: view iteration with a prefix (shallow or not) strictly inside an unloaded directory, view.ls and the fs adaptor over a view, close + re-open of the SQLite-backed index between accesses, a directory object that arrives in storage only after its first (failed, swallowed) access, empty directory objects.",
+            "A logical index (explicit files with explicit parents plus 1-3 directory objects at depth 0-2 that contain sub-directories) is realised lazily (one unloaded entry per directory object + ObjectStorage on a real cache) and explicitly, in memory or SQLite-backed via DataIndex.open(); a seeded ORDER of 4-20 accesses - lookup, membership, iteritems(prefix, shallow), ls, info, diff(L, E, hash_only), DataFileSystem ls/info/find/open, view(filter).iteritems over prefix-closed filters (first and second iteration), load() twice - decides at which moment each directory gets loaded. Every answer of the lazy index must equal the explicit index's and the model's; the explicit index is checked against the model too, so a wrong model is a harness error, not an alarm. Also: view iteration with a prefix (shallow or not) strictly inside an unloaded directory, view.ls and the fs adaptor over a view, close + re-open of the SQLite-backed index between accesses, a directory object that arrives in storage only after its first (failed, swallowed) access, empty directory objects. Also: iterations consumed step by step with another read access between two steps; a loader process killed at its k-th write to the SQLite index file; cache + remote storage with a stale cache existence index (the adaptor must serve from the remote).",
             "Entries are compared on (key, isdir, hash value); the loaded flag and sizes are not observables. longest_prefix is not part of the statement and is not compared. No fault dimension (a failing load is C09's subject).",
             "deterministic simulation: seeded access-order histories on lazy vs explicit realisations vs reference model", "DESIGN.md §5 C17"),
     "C18": ("exploration",
@@ -82,11 +82,11 @@ CHECKS = {
             "No storage prefix lies strictly inside a directory-object entry. With nested prefixes the enclosing prefix's store may legitimately also receive the nested entries (collection walks each prefix's subtree), so set equality is relaxed to min <= actual <= max there and the count identity is only required for non-nested placements (and, under faults, when no object is shared by two (remote, cache) groups).",
             "deterministic simulation: seeded placement x fault-round scenarios vs reference longest-prefix resolution model", "DESIGN.md §5 C18"),
     "C03": ("exploration",
-            "For each seeded entry set (names that are prefixes of each other, contain characters sorting below '/', non-ASCII, byte order != code-point order) the directory id is obtained along many routes that must all equal an independent canonical encoder: Tree.add in seeded permutations; build() of the materialised tree under permuted directory-listing order with checksum_jobs x large-file threshold routing files down the sequential or the pool path, where the simulated executor permutes completion order (the schedule part of the quantifier); hash-state cold, warm, and warm after touching mtimes / chmod +x at a later simulated time; from_list(as_list()) round trip; get_obj for every directory prefix and build() of that sub-directory vs the independently encoded sub-tree; near-miss entry sets must serialise to different bytes.",
+            "For each seeded entry set (names that are prefixes of each other, contain characters sorting below '/', non-ASCII, byte order != code-point order) the directory id is obtained along many routes that must all equal an independent canonical encoder: Tree.add in seeded permutations; build() of the materialised tree under permuted directory-listing order with checksum_jobs x large-file threshold routing files down the sequential or the pool path, where the simulated executor permutes completion order (the schedule part of the quantifier); hash-state cold, warm, and warm after touching mtimes / chmod +x at a later simulated time; from_list(as_list()) round trip; get_obj for every directory prefix and build() of that sub-directory vs the independently encoded sub-tree; near-miss entry sets must serialise to different bytes. The large-file pool also runs as pre-empted threads (chunk reads are pre-emption points, before and after each read); Tree.digest(with_meta=True) is one more route.",
             "Well-formed keys only (parts non-empty, no '/'). Pool tasks are reordered, not interleaved.",
             "deterministic simulation: seeded listing / insertion / pool-completion orders and state temperature vs canonical encoder", "DESIGN.md §5 C03"),
     "C14": ("exploration",
-            "Claimed narrowly: the simulated part is the stream. A SimReader serves each seeded content (sizes around 0, 511-513 bytes, the 1 MiB read size; text, binary, CRLF straddling boundaries, text head with binary tail) in PRNG-chosen short reads; the hashing stream is consumed with PRNG-chosen read sizes directly (md5 / sha256 / blake3 / upper-case names), through fobj_md5 with several chunk sizes, and through build(upload=True) from a short-reading source filesystem onto SimRemoteFS consuming in random block sizes, where the streamed digest becomes the object's name; digests, passed-through bytes, total_read and the uploaded object are compared with hashlib on the whole content. The legacy md5-dos2unix claims (CRLF == LF for a text that fits one read, binary untouched, bytes unaltered) ride along as input sweeps over full reads.",
+            "Claimed narrowly: the simulated part is the stream. A SimReader serves each seeded content (sizes around 0, 511-513 bytes, the 1 MiB read size; text, binary, CRLF straddling boundaries, text head with binary tail) in PRNG-chosen short reads; the hashing stream is consumed with PRNG-chosen read sizes directly (md5 / sha256 / blake3 / upper-case names), through fobj_md5 with several chunk sizes, and through build(upload=True) from a short-reading source filesystem onto SimRemoteFS consuming in random block sizes, where the streamed digest becomes the object's name; digests, passed-through bytes, total_read and the uploaded object are compared with hashlib on the whole content. The legacy md5-dos2unix claims (CRLF == LF for a text that fits one read, binary untouched, bytes unaltered) ride along as input sweeps over full reads. The legacy stream is also consumed over short reads (the bytes must pass unaltered); two further hashlib algorithm names per scenario and md5-sha1.",
             "The algorithm-name and dos2unix sub-claims are input sweeps, not what the simulation adds. total_read is only asserted for the plain stream (the legacy stream counts normalised bytes by design).",
             "deterministic simulation of the stream seam: seeded short-read and consumer-chunk sequences vs hashlib", "DESIGN.md §5 C14"),
 }
